@@ -378,6 +378,9 @@ pub mod model;
 pub mod sync;
 pub mod thread;
 
+#[cfg(feature = "verif")]
+pub mod verif;
+
 #[doc(inline)]
 pub use crate::model::model;
 
